@@ -26,6 +26,10 @@
 // `A retire T<t> o<id> <entries after the push>` immediately before retired_array::push (no scheduling point in between),
 // `scanned <blocks of the retired chain>` after a reclamation pass has returned, `dispose o<id>` from the disposer.
 // Header words: init= B= RB= T= cells=.  tools/dhp_pre.py rewrites such a trace into the machine's vocabulary.
+// `--grow N` (with the above): thread 0 retires N objects that its own guards protect and then unguarded ones until its
+// retired block (256 entries) is full, so that the pass started by DHP::retire extends the retired chain (N >= 193: fewer
+// than a quarter freed); this is the run that exposed retired_array::extend() leaving stale entries behind
+// (`disposed-twice`, harness/probes/dhp_retired_extend_double_dispose.cpp).
 #include <cds/init.h>
 #include <cds/gc/hp.h>
 #include <cds/gc/dhp.h>
